@@ -220,9 +220,24 @@ def check_props_file(prop_file_rel, timeout=600):
 # --------------------------------------------------------------------------
 # evaluating the model inside Coq
 # --------------------------------------------------------------------------
+_CASE_DIR = None
+
+
+def _case_dir():
+    """per-process scratch directory (two checks of one property may run concurrently)"""
+    global _CASE_DIR
+    if _CASE_DIR is None:
+        import atexit
+        import shutil
+        _CASE_DIR = os.path.join(BUILD, "cases", "p%d" % os.getpid())
+        os.makedirs(_CASE_DIR, exist_ok=True)
+        if not os.environ.get("VERIF_KEEP_CASES"):
+            atexit.register(lambda: shutil.rmtree(_CASE_DIR, ignore_errors=True))
+    return _CASE_DIR
+
+
 def _coqc_text(name, text, timeout=900):
-    d = os.path.join(BUILD, "cases")
-    os.makedirs(d, exist_ok=True)
+    d = _case_dir()
     path = os.path.join(d, name + ".v")
     open(path, "w").write(text)
     p = subprocess.run(["timeout", str(timeout), "coqc"] + COQ_FLAGS + ["-o", path + "o", path],
